@@ -1,6 +1,6 @@
 (* C08: what an accepted validation establishes (validator_ok, validator_tr). *)
 From Coq Require Import List Bool NArith ZArith Lia Permutation.
-From Verif Require Import PolicyVal PolicyValProofs PolicyValWorlds PolicyValStruct.
+From Verif Require Import PolicyVal PolicyValProofs PolicyValWorlds PolicyValStruct PolicyValNative.
 Import ListNotations.
 Local Open Scope N_scope.
 
@@ -279,8 +279,8 @@ Proof.
   apply all_hold_app in H as [H1 H2]. constructor; [apply ms_clauses_ok; exact H1 | apply IH; exact H2].
 Qed.
 
-Theorem validator_tr kk pol ik inpol dl expected :
-  validate_tr kk pol ik inpol dl expected = true ->
+Theorem validator_tr kk pol ik inpol dl expected native :
+  validate_tr kk pol ik inpol dl expected native = true ->
   let leaves := map (fun x => fst (snd x)) dl in
   (* (a) policy == internal key OR one of the leaves (the unspendable key never signs) *)
   (forall W, evalc W pol = (inpol && w_key W ik) || existsb (fun m => evals W (lift_ms m)) leaves)
@@ -291,15 +291,19 @@ Theorem validator_tr kk pol ik inpol dl expected :
   (* exactly the independently compiled leaves *)
   /\ (forall ex, expected = Some ex -> Permutation leaves ex)
   (* every leaf is a sane Tap miniscript *)
-  /\ Forall (fun x => ms_facts Tap kk (fst (snd x)) (snd (snd x))) dl.
+  /\ Forall (fun x => ms_facts Tap kk (fst (snd x)) (snd (snd x))) dl
+  (* compile_tr_native: no leaf script contains OP_IF / OP_NOTIF / OP_IFDUP, i.e. no leaf contains
+     d:, j:, andor, or_d, or_c, or_i *)
+  /\ (native = true -> forall m, In m leaves ->
+       script_has_if (enc (val_keyenv kk) m) = false /\ has_if_frag m = false).
 Proof.
   intro H. cbv zeta. unfold validate_tr, tr_clauses in H. cbv zeta in H.
   set (leaves := map (fun x : N * (ms * list ty) => fst (snd x)) dl) in *.
-  apply all_hold_cons in H as [Eq H]. apply all_hold_cons in H as [Ek H].
+  apply all_hold_cons in H as [Eq H]. apply all_hold_cons in H as [En H]. apply all_hold_cons in H as [Ek H].
   apply all_hold_cons in H as [Et H]. apply all_hold_cons in H as [El H].
   apply flat_clauses_ok in H.
   apply andb_true_iff in Ek as [Ek1 Ek2].
-  split; [|split; [|split; [|split; [|split]]]].
+  split; [|split; [|split; [|split; [|split; [|split]]]]].
   - intro W. rewrite <- lift_c_eval. rewrite (equiv_dec_sound _ _ Eq W).
     unfold tr_policy. rewrite thresh_one, existsb_app, existsb_map_comp. destruct inpol; cbn [existsb andb orb]; [rewrite orb_false_r|]; reflexivity.
   - intros ->. cbn in Ek2. apply negb_true_iff in Ek2. split; intro Hin.
@@ -314,4 +318,5 @@ Proof.
     unfold leaves. rewrite E. symmetry. apply tree_depths_leaves.
   - intros ex ->. apply perm_eqb_ok. exact El.
   - exact H.
+  - intros -> m Hm. cbn [negb orb] in En. rewrite forallb_forall in En. apply native_leaf_spec. apply En. exact Hm.
 Qed.
